@@ -970,6 +970,22 @@ pub fn ddl(depth: usize) -> Value {
             Err(err) => return found_raw(tried, e, &sqls, &[3], 3, "the database to reopen after the (possibly refused) statement".into(), err),
         }
     }
+    // a NULL for a NOT NULL column: the statement is refused and changes nothing, or its rows read back as they were written (H43)
+    for bad in ["insert into nn values (8, 9), (null, 4)", "insert into nn(y) values (7)"] {
+        let sqls: Vec<String> = vec!["create table nn(x int not null, y int)".into(), "insert into nn values (5, 6)".into(), bad.into(), "select x, y from nn".into(), "select x, y from nn".into()];
+        tried += 2;
+        let outs = match run(e, &sqls, &[4]) { Ok(o) => o, Err(err) => return found_raw(tried, e, &sqls, &[4], 4, "the session to run".into(), err) };
+        let refused = outs[2].is_err();
+        let mut want = vec![vec!["5".to_string(), "6".to_string()]];
+        if !refused { if bad.contains("(8, 9)") { want.push(vec!["8".into(), "9".into()]); want.push(vec!["NULL".into(), "4".into()]); } else { want.push(vec!["NULL".into(), "7".into()]); } }
+        let want = sorted(want);
+        for i in [3usize, 4] {
+            match &outs[i] {
+                Ok(got) if sorted(got.clone()) == want => {}
+                other => { if let Some(v) = found(tried, e, &sqls, &[4], i, format!("{} => {want:?}", if refused { "the INSERT was refused" } else { "the INSERT was acknowledged" }), format!("{other:?}")) { return v; } }
+            }
+        }
+    }
     // one DELETE that removes thousands of rows of one RowSet (a delete-vector file of many KiB), one long VARCHAR value: both
     // have to survive two reopen cycles unchanged
     {
